@@ -143,7 +143,7 @@ def to_line(p):
         if k == "sleep":
             return ["assign", "_sl", s[1]]
         if k == "all":
-            return ["assign", "__all__", ["lit", 0]]     # the model (like pyscript) does not interpret __all__
+            return ["setall", s[1]]                      # __all__ = [...]: interpreted by the model's star import
         if k in ("getctx", "listctx"):
             return ["assign", s[1], ["lit", 0]]          # probe names are dunders: outside the compared tables
         return s
@@ -952,14 +952,22 @@ def overlap_case(rng):
     """two tasks are inside one module function at the same time (it suspends); the later entrant returns first"""
     d1, d2 = rng.randrange(4, 8), rng.randrange(1, 3)
     two_ctx = rng.random() < 0.5
+    # nested: the module function entered from the other file makes a SAME-context call that suspends, and uses its own
+    # locals afterwards (two tasks inside `front` at once, their inner calls return in non-LIFO order)
+    nested = rng.random() < 0.6
+    if rng.random() < 0.5:
+        d1, d2 = d2, d1              # the FIRST entrant's inner call returns first (non-LIFO completion of the inner calls)
+    entry = "front" if nested else "slow"
     funcs = [
         ["slow", ["d"], ["cnt"], [["add", "cnt", V("cnt"), L(1)], ["add", "t", V("d"), L(100)], ["sleep", V("d")],
                                   ["ret", V("t")]]],
-        ["wa", ["a"], ["xa"], [["add", "t", V("a"), L(10)], ["call", "r", A("m1", "slow"), [L(d1)]], ["add", "xa", V("t"), V("r")]]],
-        ["wb", ["a"], ["xb"], [["add", "t", V("a"), L(20)], ["call", "r", A("m1", "slow"), [L(d2)]], ["add", "xb", V("t"), V("r")]]],
+        ["wa", ["a"], ["xa"], [["add", "t", V("a"), L(10)], ["call", "r", A("m1", entry), [L(d1)]], ["add", "xa", V("t"), V("r")]]],
+        ["wb", ["a"], ["xb"], [["add", "t", V("a"), L(20)], ["call", "r", A("m1", entry), [L(d2)]], ["add", "xb", V("t"), V("r")]]],
         ["both", [], [], [["spawn", False, V("wa"), [L(1)]], ["spawn", False, V("wb2"), [L(2)]], ["ret", L(0)]]],
+        ["front", ["d"], ["tot"], [["add", "t", V("d"), L(200)], ["call", "r", V("slow"), [V("d")]], ["add", "u", V("t"), V("r")],
+                                   ["add", "tot", V("tot"), V("u")], ["ret", V("u")]]],
     ]
-    files = [[["modules", "m1"], [["assign", "cnt", L(0)], ["def", "slow", 0]]]]
+    files = [[["modules", "m1"], [["assign", "cnt", L(0)], ["assign", "tot", L(0)], ["def", "slow", 0], ["def", "front", 4]]]]
     ctxs = [S1, S2] if two_ctx else [S1]
     ops = [["run", 0, ["import", ["m1"], None]], ["run", 0, ["def", "wa", 1]]]
     if two_ctx:
@@ -970,7 +978,7 @@ def overlap_case(rng):
     ops += [["run", 0, ["def", "both", 3]], ["run", 0, ["call", "res", V("both"), []]],
             ["run", 0, ["call", "res", V("both"), []]]]
     return {"kind": "interp", "tag": "overlap", "funcs": funcs, "files": files, "ctxs": ctxs, "ops": ops,
-            "tags": ["overlapping-activations", "two-files" if two_ctx else "one-file"]}
+            "tags": ["overlapping-activations", "two-files" if two_ctx else "one-file"] + (["nested-same-ctx-call"] if nested else []) + ["first-returns-first" if d1 < d2 else "later-returns-first"]}
 
 
 def deep_setctx_case(rng):
@@ -1485,6 +1493,114 @@ def gen_ha_case(rng):
             "tags": sorted(g.tags | {"ha"} | {"entry-" + e[0] for e in evs})}
 
 
+def gen_reload_case(rng):
+    """a history, not a program: load -> edit ONE leaf module that every file imports directly or through other modules
+    -> pyscript.reload.  Everything that imports the edited module (transitively) has to be loaded again, so afterwards
+    the registered contexts must look like a fresh load of the final files (the CPython oracle imports those): one
+    instance of every module, no file still holding the old one.  Dimensions: length of the chain of intermediate
+    modules on either side, import spelling, which side writes state into the leaf, a bystander module."""
+    na, nb = rng.choice([1, 1, 2]), rng.choice([0, 0, 1])        # intermediates between s1 / s2 and the leaf
+    v1, v2 = rng.randrange(1, 9), rng.randrange(11, 19)
+    leaf = "lf"
+    files_final, initial = [], {}
+
+    def use_leaf(via, k):
+        sp = rng.choice(["import", "as", "from"])
+        if sp == "import":
+            return [["import", [via], None], ["add", "t", A(via, "cnt"), L(k)], ["setattr", via, "cnt", V("t")],
+                    ["assign", "ver", A(via, "VERSION")]]
+        if sp == "as":
+            return [["import", [via], "q"], ["add", "t", A("q", "cnt"), L(k)], ["setattr", "q", "cnt", V("t")],
+                    ["assign", "ver", A("q", "VERSION")]]
+        return [["from", [via], 0, [["VERSION", "ver"]]], ["import", [via], "q2"], ["add", "t", A("q2", "cnt"), L(k)],
+                ["setattr", "q2", "cnt", V("t")]]
+
+    files_final.append([["modules", leaf], [["assign", "VERSION", L(v2)], ["assign", "cnt", L(0)]]])
+    initial["modules/" + leaf + ".py"] = [["assign", "VERSION", L(v1)], ["assign", "cnt", L(0)]]
+    chains = []
+    for side, n in (("a", na), ("b", nb)):
+        names = [f"{side}{k}" for k in range(n)]
+        below = leaf
+        for k, nm in enumerate(reversed(names)):
+            body = use_leaf(below, 10 * (k + 1)) if below == leaf else [["import", [below], None], ["assign", "ver", A(below, "ver")]]
+            files_final.append([["modules", nm], body])
+            below = nm
+        chains.append(below)
+    if rng.random() < 0.4:
+        files_final.append([["modules", "by"], [["assign", "quiet", L(7)]]])       # a bystander nobody reloads
+        bystander = True
+    else:
+        bystander = False
+    bodies = []
+    for i, top in enumerate(chains):
+        body = [["assign", "x", L(100 * (i + 1))]]
+        if top == leaf:
+            body += use_leaf(leaf, i + 1)
+        else:
+            body += [["import", [top], None], ["assign", "seen", A(top, "ver")]]
+        if bystander and i == 1:
+            body += [["import", ["by"], None]]
+        bodies.append(([f"s{i + 1}"], body))
+    ops = []
+    for i, (_, body) in enumerate(bodies):
+        ops += [["run", i, st] for st in body]
+    return {"kind": "ha", "tag": "reload", "funcs": [], "files": files_final, "initial": initial, "ctxs": [S1, S2],
+            "mainfiles": [[pth, b] for pth, b in bodies], "events": [], "ops": ops, "edit": "modules/" + leaf + ".py",
+            "tags": ["ha", "reload-leaf", f"chain-{na}-{nb}"] + (["bystander"] if bystander else [])}
+
+
+def ha_reload_run(p, legacy):
+    """load the initial files, rewrite the leaf, pyscript.reload; returns the tables of the REGISTERED contexts (a module
+    or function value whose context is no longer registered is shown as STALE)"""
+    import ha_env
+    from custom_components.pyscript.global_ctx import GlobalContextMgr
+    from custom_components.pyscript.eval import EvalFuncVar
+    final = {"/".join(path) + ".py": render(p["funcs"], body) for path, body in p["files"]}
+    for path, body in p["mainfiles"]:
+        final["/".join(path) + ".py"] = render(p["funcs"], body)
+    first = dict(final)
+    for rel, body in p["initial"].items():
+        first[rel] = render(p["funcs"], body)
+
+    async def body(env):
+        await env.settle(0.05)
+        env.write(p["edit"], final[p["edit"]])
+        st = os.stat(os.path.join(env.cfgdir, "pyscript", p["edit"]))
+        os.utime(os.path.join(env.cfgdir, "pyscript", p["edit"]), (st.st_atime, st.st_mtime + 5))
+        await env.reload()
+        await env.settle(0.05)
+        reg = {n: g for n, g in GlobalContextMgr.contexts.items() if n.split(".")[0] in ("file", "modules", "apps")}
+
+        def lab(tab):
+            for n, g in reg.items():
+                if g.global_sym_table is tab:
+                    return n
+            return None
+
+        def val(v):
+            if isinstance(v, types.ModuleType):
+                n = lab(v.__dict__)
+                return f"mod:{n}" if n else f"mod:STALE:{v.__name__}"
+            if isinstance(v, EvalFuncVar):
+                f = v.get_func()
+                n = lab(f.global_ctx.global_sym_table)
+                return f"fn:{n or 'STALE'}:{f.get_name()}"
+            if v is None or isinstance(v, (bool, int)):
+                return repr(v)
+            return f"<{type(v).__name__}>"
+
+        out = []
+        for n, g in reg.items():
+            if n.startswith("modules.") and g.module is None:
+                continue
+            items = sorted(f"{k}={val(v)}" for k, v in g.global_sym_table.items()
+                           if not (k.startswith("__") and k.endswith("__")) and k not in ("hass", "pyscript.app_config"))
+            out.append(f"{n}{{{','.join(items)}}}")
+        return " ".join(sorted(out))
+
+    return ha_env.run_ha(first, legacy, body), []
+
+
 def ha_sources(p):
     files = {}
     for path, body in p["files"]:
@@ -1534,6 +1650,8 @@ def ha_run(p, legacy):
             out.append(f"{_label(ctxs, g)}{{{','.join(items)}}}")
         return " ".join(sorted(out))
 
+    if p.get("tag") == "reload":
+        return ha_reload_run(p, legacy)
     GlobalContext.__init__ = tracked
     install_call_probe()
     del _call_viol[:]
@@ -1584,8 +1702,8 @@ def gen_cases(rng, tier, search):
             p = rename_ids(p, mapping)
             p["tags"] = sorted(set(p["tags"]) | {"rename:" + tag})
         cases.append(Case(p, to_line(p), tags=tuple(["interp"] + p["tags"])))
-    for _ in range(n_ha):
-        p = gen_ha_case(rng)
+    for k in range(n_ha + (8 if tier == "quick" else 60) * (2 if search else 1)):
+        p = gen_ha_case(rng) if k < n_ha else gen_reload_case(rng)
         for legacy in (True, False):
             q = dict(p)
             q["legacy"] = legacy
